@@ -131,13 +131,18 @@ def run_case(case, rng):
                     return False
         return True
 
-    class Probe(td.TDLearningEventListener):
+    class Probe(td.EpisodeRewardEventListener):
+        """extends the learners' DEFAULT listener (so that event_listener_results is the library's own) and adds the probes"""
         def __init__(self):
-            pass
+            td.EpisodeRewardEventListener.__init__(self)
+            state["ep_reward_sums"] = []
+            state["ep_acc"] = 0.0
 
         def end_of_timestep(self, lv):
+            td.EpisodeRewardEventListener.end_of_timestep(self, lv)
             if state.get("warmup"):
                 return
+            state["ep_acc"] = state.get("ep_acc", 0.0) + lv["r"]
             s, a, r, ns = lv["s"], lv["a"], lv["r"], lv["ns"]
             state["steps"] += 1
             state["ep_steps"] += 1
@@ -194,14 +199,14 @@ def run_case(case, rng):
             compare_tables(q, sh1, "q")
 
         def end_of_episode(self, lv):
+            td.EpisodeRewardEventListener.end_of_episode(self, lv)
             if state.get("warmup"):
                 return
             state["episodes"] += 1
             state["ep_steps"] = 0
+            state["ep_reward_sums"].append(state.get("ep_acc", 0.0))
+            state["ep_acc"] = 0.0
             case.count("episodes_observed")
-
-        def results(self):
-            return None
 
     cls = getattr(td, learner_name)
     learner = cls(episodes=episodes, step_size=alpha, rand_choose=eps, softmax_temp=temp, initial_q=initial_q,
@@ -228,6 +233,13 @@ def run_case(case, rng):
     case.sample = dict(spec=sp.describe(), config=case.params, steps=state["steps"], episodes=state["episodes"])
     case.check(state["episodes"] == episodes, "episode-count-differs", f"{state['episodes']} vs {episodes}", **facts)
 
+    # ---- the default listener's own result: one total per episode, equal to the rewards the probe saw ------------------
+    er = case.call("event_listener_results.episode_rewards", lambda: list(res.event_listener_results.episode_rewards), facts=facts)
+    if er is not case.FAIL:
+        want_er = state.get("ep_reward_sums", [])
+        case.count("episode_reward_lists_compared")
+        case.check(len(er) == len(want_er) and all(abs(float(x) - float(y)) <= 1e-9 * max(1.0, abs(y)) for x, y in zip(er, want_er)),
+                   "episode_rewards!=per-episode-sums-of-experienced-rewards", lambda: f"{er!r} vs {want_er!r}", **facts)
     # ---- final table ---------------------------------------------------------------------------------
     Q = res.q_values
     rvals = [sp.reward(s, a, t) for (s, a), lst in sp.P.items() for t, p in lst if p > 0 and s not in sp.flag]
